@@ -324,6 +324,27 @@ PROPS = {
             "model is covered by C09); goroutine scheduling is exercised with two worker counts, not enumerated",
         ],
     },
+    "C11": {
+        "harness": [{"cmd": "c11", "n": {"quick": 300, "thorough": 6000}, "extra": ["-per", "50"]}],
+        "rule": "the goalign binary is built from /repo's working tree on every run; nucleotide alignments of 2-5 rows x "
+                "6-75 columns (gaps 2.5%) written as FASTA. 50%: one of 32 command templates (random, shuffle sites / "
+                "seqs / swap / recomb / rogue, sample sites / seqs, mutate snvs / gaps, build distboot / weightboot, "
+                "compute distance / entropy / pssm, stats, stats char / maxchar / gaps / per sequence, consensus, clean "
+                "sites, compress, sort, dedup, translate, reformat phylip / nexus / clustal) run twice with the same "
+                "40-bit seed, --threads 1 against 2/3/8/16: stdout and exit status compared in the kernel; 20%: build "
+                "seqboot (1-3 replicates, fraction 1, 1/2, 3/4, with or without -S) twice, the files compared with each "
+                "other and with the model's prediction from the raw tape of the seed and the FASTA writer model; 20%: a "
+                "chain of 2-5 reformat commands through fasta / phylip / nexus / clustal back to the starting format, "
+                "final bytes against the starting file; 10%: build distboot against build seqboot + compute distance "
+                "on every replicate, 7 models; non-trivial = every case; distinct = distinct (command, seed, alignment)",
+        "nontrivial": lambda m: True,
+        "assumptions": [
+            "process-level behaviour (exit status, stdout, files) is observed, not modelled, except for build seqboot; "
+            "time-based seeding (--seed -1) is outside the property",
+            "math/rand's seeded global source is the tape model of Base/Tape.v (conformance checked by C10 and by the "
+            "seqboot prediction here)",
+        ],
+    },
     "C08": {
         "harness": [{"cmd": "c08", "n": {"quick": 600, "thorough": 20000}, "extra": ["-per", "100"]}],
         "rule": "the alignments and option sets of C07, each followed by one relation between two real calls of "
